@@ -198,6 +198,8 @@ impl GameData {
 
     /// Parses a path structure and spits out the corresponding category and repository.
     fn parse_repository_category(&self, path: &str) -> Option<(&Repository, Category)> {
+        // Game paths are case-insensitive, like the hashes they are looked up by
+        let path = path.to_lowercase();
         let tokens = path.split_once('/')?;
 
         // The repository is named by the second path segment only, e.g. "ex1" in "bg/ex1/01_roc_r2/..."
